@@ -43,7 +43,65 @@ var (
 	methods = map[string]*ast.FuncDecl{} // "T.m" or "f"
 	pkgVars = map[string]bool{}
 	lockCopies []string
+	loopShares []string
 )
+
+// loopSharedCaptures: inside a `for` body, a `go func(){…}()` that uses a variable which is declared OUTSIDE
+// the loop and assigned (`=`) inside the loop body outside the literal: every goroutine started by the loop
+// shares that one variable (the accept-loop hazard: two goroutines serve the newest connection).
+func loopSharedCaptures(name string, body *ast.BlockStmt) {
+	ast.Inspect(body, func(n ast.Node) bool {
+		var loopBody *ast.BlockStmt
+		var loopPos token.Pos
+		switch x := n.(type) {
+		case *ast.ForStmt:
+			loopBody, loopPos = x.Body, x.Pos()
+		case *ast.RangeStmt:
+			loopBody, loopPos = x.Body, x.Pos()
+		}
+		if loopBody == nil {
+			return true
+		}
+		assigned := map[*ast.Object]bool{}
+		var lits []*ast.FuncLit
+		var walk func(m ast.Node, inLit bool)
+		walk = func(m ast.Node, inLit bool) {
+			ast.Inspect(m, func(k ast.Node) bool {
+				switch y := k.(type) {
+				case *ast.GoStmt:
+					if lit, ok := y.Call.Fun.(*ast.FuncLit); ok {
+						lits = append(lits, lit)
+						for _, a := range y.Call.Args {
+							walk(a, inLit)
+						}
+						return false
+					}
+				case *ast.AssignStmt:
+					if y.Tok == token.ASSIGN && !inLit {
+						for _, l := range y.Lhs {
+							if id, ok := l.(*ast.Ident); ok && id.Obj != nil && id.Obj.Pos() < loopPos {
+								assigned[id.Obj] = true
+							}
+						}
+					}
+				}
+				return true
+			})
+		}
+		walk(loopBody, false)
+		for _, lit := range lits {
+			seen := map[*ast.Object]bool{}
+			ast.Inspect(lit.Body, func(k ast.Node) bool {
+				if id, ok := k.(*ast.Ident); ok && id.Obj != nil && assigned[id.Obj] && !seen[id.Obj] {
+					seen[id.Obj] = true
+					loopShares = append(loopShares, name+":"+id.Name)
+				}
+				return true
+			})
+		}
+		return true
+	})
+}
 
 // aliases: two names for ONE mutex. FBaseProcessorFunction.writeMu is the *sync.Mutex that the emitted
 // processor constructors obtain from FBaseProcessor.GetWriteMutex() (trusted; see DESIGN.md).
@@ -570,6 +628,7 @@ func main() {
 				return true
 			})
 		}
+		loopSharedCaptures(f.name, d.Body)
 		fns = append(fns, f)
 	}
 	sort.Slice(fns, func(i, j int) bool { return fns[i].name < fns[j].name })
@@ -735,6 +794,15 @@ func main() {
 		}
 		fmt.Fprintf(&b, "%q", n)
 		fmt.Printf("COPY %s copies its receiver's struct, which holds a mutex, by value\n", n)
+	}
+	b.WriteString("]\n\n/-- `function:variable` — a goroutine started in a loop uses a variable declared outside the loop and assigned in it. -/\ndef loopShares : List String := [")
+	sort.Strings(loopShares)
+	for i, n := range loopShares {
+		if i > 0 {
+			b.WriteString(", ")
+		}
+		fmt.Fprintf(&b, "%q", n)
+		fmt.Printf("SHARED %s: goroutines started by a loop share this variable\n", n)
 	}
 	b.WriteString("]\n\nend FV.Generated.Locks\n")
 	// human-readable report of what breaks the discipline (the Lean side decides; this is for the replay file)
